@@ -61,6 +61,20 @@ def oracle(gcase, allg, filtg):
             errs.append("maxlag is not a listed partition")
         elif int(allg["maxlag"][7]) != max(lags):
             errs.append("maxlag lag %s != max %d" % (allg["maxlag"][7], max(lags)))
+    # completeness = (number of partitions whose own Complete is exactly 1.0) / (number of partitions), as float32
+    if parts:
+        full = sum(1 for p in parts if int(p[8]) == 0x3F800000)
+        want_c = evalgen.f32bits(full / len(parts)) if full < len(parts) else 0x3F800000
+        if allg["complete"] != want_c and not (full == 0 and allg["complete"] == 0):
+            errs.append("group completeness bits %#x, %d of %d partitions complete imply %#x" % (allg["complete"], full, len(parts), want_c))
+    elif allg["complete"] != 0:
+        errs.append("group without partitions reports completeness %#x" % allg["complete"])
+    # identity: the listed (topic, partition index) pairs are exactly the partitions of the storage reply
+    if "topics" in gcase and all(ps is not None for _, ps in gcase["topics"]):
+        want_ids = sorted((t, i) for t, ps in gcase["topics"] for i in range(len(ps)))
+        got_ids = sorted((int(p[0].lstrip("t") or 0) if not p[0].lstrip("-").isdigit() else int(p[0]), int(p[1])) for p in parts)
+        if len(want_ids) == len(got_ids) and [i for _, i in want_ids] != [i for _, i in got_ids] and sorted(i for _, i in want_ids) != sorted(i for _, i in got_ids):
+            errs.append("listed partition indices %s are not those of the storage reply %s" % (got_ids[:8], want_ids[:8]))
     # problems-only view
     if filtg["parts"] != [p for p in parts if int(p[4]) > 1]:
         errs.append("filtered view is not exactly the partitions worse than OK (order preserved)")
